@@ -275,6 +275,8 @@ func NewKernel(ctx context.Context, log *slog.Logger, cfg KernelConfig) (*Kernel
 		return nil, err
 	}
 
+	verifTrace(k, "Init", &initState)
+
 	go k.mainLoop(ctx, &initState, cfg.Watchdog)
 
 	return k, nil
@@ -344,6 +346,7 @@ func (k *Kernel) mainLoop(ctx context.Context, s *kState, wd *gwatchdog.Watchdog
 			// although it looks those are only used in tests,
 			// so this functionality should probably be removed.
 			k.sendSnapshotResponse(ctx, s, req)
+			verifTrace(k, "Snapshot", s)
 
 		case req := <-k.viewLookupRequests:
 			// The mirror sends a view lookup request
@@ -352,6 +355,7 @@ func (k *Kernel) mainLoop(ctx context.Context, s *kState, wd *gwatchdog.Watchdog
 			// This is intended to be a lightweight check to allow the mirror
 			// to avoid work if a message contains only redundant information.
 			k.sendViewLookupResponse(ctx, s, req)
+			verifTrace(k, "ViewLookup", s)
 
 		case req := <-k.phCheckRequests:
 			// The mirror sends the proposed header check request
@@ -359,65 +363,77 @@ func (k *Kernel) mainLoop(ctx context.Context, s *kState, wd *gwatchdog.Watchdog
 			// This is intended to be a lightweight check to allow the mirror
 			// to avoid work if a message contains only redundant information.
 			k.sendPHCheckResponse(ctx, s, req)
+			verifTrace(k, "PHCheck", s)
 
 		case ph := <-k.addPHRequests:
 			// The mirror makes an add proposed header request
 			// if it appears that the proposed header should be added to the mirror's state.
 			k.addProposedHeader(ctx, s, ph)
+			verifTrace(k, "AddPH", s)
 
 		case req := <-k.addPrevoteRequests:
 			// The mirror makes an add prevote request
 			// when handling prevote proofs.
 			k.addPrevote(ctx, s, req)
+			verifTrace(k, "AddPrevote", s)
 
 		case req := <-k.addFuturePrevoteRequests:
 			// The mirror has a special case for future prevotes,
 			// because the mirror had to look up public keys
 			// that may not be in the actively managed views.
 			req.Resp <- k.addFuturePrevote(ctx, s, req)
+			verifTrace(k, "AddFuturePrevote", s)
 
 		case req := <-k.addPrecommitRequests:
 			// The mirror makes an add precommit request
 			// when handling precommit proofs.
 			k.addPrecommit(ctx, s, req)
+			verifTrace(k, "AddPrecommit", s)
 
 		case req := <-k.addFuturePrecommitRequests:
 			// The mirror has a special case for future precommits,
 			// because the mirror had to look up public keys
 			// that may not be in the actively managed views.
 			req.Resp <- k.addFuturePrecommit(ctx, s, req)
+			verifTrace(k, "AddFuturePrecommit", s)
 
 		case gsOut.Ch <- gsOut.Val:
 			// If the gossip strategy output channel is not nil,
 			// send the updated gossip strategy value.
 			gsOut.MarkSent()
+			verifTrace(k, "GossipSent", s)
 
 		case smOut.Ch <- smOut.Val:
 			// If the state machine output channel is not nil,
 			// send the updated state machine value.
 			smOut.MarkSent()
+			verifTrace(k, "SMSent", s)
 
 		case lagOut.Ch <- lagOut.Val:
 			// If the lag manager output channel is not nil,
 			// send the updated state machine value.
 			lagOut.MarkSent()
+			verifTrace(k, "LagSent", s)
 
 		case ph := <-k.phf.FetchedProposedHeaders:
 			// This channel has a complete proposed header value
 			// that was retrieved out of band from the normal network flow
 			// through the mirror.
 			k.addProposedHeader(ctx, s, ph)
+			verifTrace(k, "FetchedPH", s)
 
 		case re := <-k.stateMachineRoundEntranceIn:
 			// The state machine has entered a new round
 			// (which could be round zero in a new height,
 			// or a non-zero round in the current height).
 			k.handleStateMachineRoundEntrance(ctx, s, re)
+			verifTrace(k, "SMRoundEntrance", s)
 
 		case act := <-s.StateMachineViewManager.Actions():
 			// The state machine is sending its own
 			// proposed header, prevote, or precommit.
 			k.handleStateMachineAction(ctx, s, act)
+			verifTrace(k, "SMAction", s)
 
 		case req := <-k.replayedHeadersIn:
 			// The driver may provide replayed headers ("catchup"),
@@ -441,6 +457,7 @@ func (k *Kernel) mainLoop(ctx context.Context, s *kState, wd *gwatchdog.Watchdog
 				// for a clean shutdown.
 				panic(fmt.Errorf("TODO: handle internal error from handling replayed block: %w", err))
 			}
+			verifTrace(k, "Replayed", s)
 
 		case sig := <-wSig:
 			// Watchdog signal needs to be handled periodically
